@@ -73,8 +73,9 @@ fn run_case(c: &Case) -> Result<(), String> {
             Ok(())
         }
         Case::FromU32(n) => {
-            let (k, o) = (chr::from_u32(*n), char::from_u32(*n));
-            ensure!(k == o, "from_u32({:#x}): konst {:?} std {:?}", n, k, o);
+            // compared as u32: an invalid char must not reach a formatter
+            let (k, o) = (chr::from_u32(*n).map(|c| c as u32), char::from_u32(*n).map(|c| c as u32));
+            ensure!(k == o, "from_u32({:#x}): konst {:x?} std {:x?} (scalar values)", n, k, o);
             Ok(())
         }
         Case::Iter { s, hist, steps } => check_iter(s, *hist, *steps),
@@ -126,6 +127,39 @@ fn explore(ctx: &mut Ctx) {
         eval(ctx, Case::FromU32(n));
     }
     ctx.exhaustive_part("every u32 in 0..0x120000 (+10 large values) for from_u32; every char for encode_utf8");
+    // high halves: a check done on truncated pieces of n (plane as u8, low half as u16) is only wrong above 2^24 / 2^16
+    for hi in 0x12..=0xffffu32 {
+        for lo in [0u32, 0x41, 0xd7ff, 0xd800, 0xdfff, 0xe000, 0xffff] {
+            eval(ctx, Case::FromU32(hi << 16 | lo));
+        }
+    }
+    ctx.exhaustive_part("from_u32: every upper half 0x12..=0xffff x 7 lower halves (0, 'A', surrogate gap edges, 0xffff)");
+    if ctx.by_tier(false, true) {
+        // thorough: all 2^32 values, compared outside the case machinery in 16 threads; mismatches are replayed as cases
+        let bad: Vec<u32> = std::thread::scope(|sc| {
+            let hs: Vec<_> = (0..16u32)
+                .map(|t| {
+                    sc.spawn(move || {
+                        let mut bad = Vec::new();
+                        let (lo, hi) = ((t as u64) << 28, ((t as u64) + 1) << 28);
+                        for n in lo..hi {
+                            let n = n as u32;
+                            let k = std::panic::catch_unwind(|| chr::from_u32(n).map(|c| c as u32));
+                            if k.ok() != Some(char::from_u32(n).map(|c| c as u32)) && bad.len() < 4 {
+                                bad.push(n);
+                            }
+                        }
+                        bad
+                    })
+                })
+                .collect();
+            hs.into_iter().flat_map(|h| h.join().unwrap_or_default()).collect()
+        });
+        for n in bad {
+            eval(ctx, Case::FromU32(n));
+        }
+        ctx.exhaustive_part("from_u32: all 2^32 u32 values (raw comparison with char::from_u32 in 16 threads; mismatches re-run as cases)");
+    }
     // iteration: all strings <= L chars over one char per UTF-8 length x all histories
     let l = ctx.by_tier(5, 6);
     for s in gen::strings(&gen::TEXT4, l) {
